@@ -3,6 +3,7 @@ package circl
 
 import (
 	"crypto/cipher"
+	"errors"
 	"io"
 
 	bls12381 "github.com/cloudflare/circl/ecc/bls12381"
@@ -18,7 +19,14 @@ type G2Elt struct{ inner bls12381.G2 }
 func (p *G2Elt) MarshalBinary() (data []byte, err error) { return p.inner.BytesCompressed(), nil }
 
 // UnmarshalBinary populates the point from a compressed point representation.
-func (p *G2Elt) UnmarshalBinary(data []byte) error { return p.inner.SetBytes(data) }
+func (p *G2Elt) UnmarshalBinary(data []byte) error {
+	// Only the compressed form is supported. Circl would otherwise treat the
+	// buffer as an uncompressed point and may read past its end.
+	if len(data) > 0 && data[0]&0x80 == 0 {
+		return errors.New("bls12-381: point is not in compressed form")
+	}
+	return p.inner.SetBytes(data)
+}
 
 func (p *G2Elt) String() string { return p.inner.String() }
 
